@@ -471,6 +471,33 @@ def main():
         print('bounded stand-in: failing input on the real code: %s' % bounded['failing_input'][:1500])
         print('VIOLATION property=%s replay=%s' % (prop, rp))
         return 1
+    # 8. units of ANOTHER check that this property's argument composes with (meta 'composes_with': {check: [unit names]}): the claim made here uses their contracts
+    # (e.g. C14: relax / restore only move constraints, THEREFORE values and feasibility are invariant - through the contract of Instance::evaluate, verified in C05).
+    # Their obligations are re-checked on the current tree; one that was proved on the pinned tree and fails now is a failed obligation of this property's argument too.
+    if not os.environ.get('VERIF_AS_DEPENDENCY'):
+        import subprocess
+        for dep, dep_units in (meta.get('composes_with') or {}).items():
+            env = dict(os.environ, VERIF_NO_BOUNDED='1', VERIF_AS_DEPENDENCY=prop, VERIF_OUT=os.path.join(OUT, 'dep-' + dep), VERIF_EVIDENCE=os.path.join(OUT, 'dep-evidence'))
+            env.pop('VERIF_WRITE_BASELINE', None)
+            pr = subprocess.run([sys.executable, os.path.abspath(__file__), dep], capture_output=True, text=True, env=env)
+            ev.setdefault('coverage', {}).setdefault('composed_with', []).append(dict(check=dep, units=list(dep_units), exit_code=pr.returncode))
+            if pr.returncode != 1:
+                continue          # held, or undecided there: this property's own verdict stands
+            lines = pr.stdout.splitlines()
+            fo = [l for l in lines if l.startswith('failed obligation:') and any(('unit=%s (' % u) in l for u in dep_units)]
+            if not fo:
+                continue
+            rp = os.path.join(OUT, 'replay', '%s-composed-%s.json' % (prop, dep))
+            with open(rp, 'w') as f:
+                json.dump(dict(property=prop, unit='units of check %s that the argument of %s composes with' % (dep, prop), failed_obligations=[dict(obligation=l, clause='', verifier_output='') for l in fo],
+                               witness=None, replay_cmd='./bin/check %s' % dep, verifier_stdout=pr.stdout[-4000:]), f, indent=1)
+            write_evidence(prop, ev)
+            for l in fo:
+                print(l.replace('failed obligation:', 'failed obligation (unit of %s, composed with):' % dep, 1)[:400])
+            print('VIOLATION property=%s replay=%s no-failing-input-found' % (prop, rp))
+            return 1
+        if meta.get('composes_with'):
+            write_evidence(prop, ev)
     print('OK property=%s tier=%s units=%d obligations=%d discharged=%d guards=%d%s wall=%.1fs' %
           (prop, tier, len(unit_names), obligations, discharged, n_guard_fns,
            (' bounded-stand-in=%d/%d' % (bounded['distinct'], bounded['cases'])) if bounded and bounded['status'] == 'pass' else '', time.time() - t0))
